@@ -1411,7 +1411,9 @@ func extractExpelsFromBallot(
 func isNewVoteproofWithSuffrageConfirmFunc(isSuffrageConfirm bool) func(isaac.LastPoint, base.Voteproof) bool {
 	return func(last isaac.LastPoint, vp base.Voteproof) bool {
 		switch {
-		case isaac.IsNewVoteproof(last, vp), isSuffrageConfirm && !last.IsMajority():
+		case isaac.IsNewVoteproof(last, vp):
+			return true
+		case isSuffrageConfirm && !last.IsMajority() && vp.Point().Height() >= last.Height():
 			return true
 		default:
 			return false
